@@ -82,8 +82,16 @@ func Discharge(o *Obl, script, dir string, timeout int, all bool) *Verdict {
 		name = name[:150]
 	}
 	file := filepath.Join(dir, fmt.Sprintf("%s_%x.smt2", name, h[:4]))
-	os.WriteFile(file, []byte(script), 0o644)
+	if len(script) <= 3<<20 {
+		os.WriteFile(file, []byte(script), 0o644)
+	}
 	v := &Verdict{Obl: o, File: file, Hash: fmt.Sprintf("%x", h[:8])}
+	if len(script) > 3<<20 {
+		// size cap: a query this large means the encoding has blown up; fail closed instead of stalling
+		os.WriteFile(file, []byte(script[:4096]+"\n; ... truncated: query exceeded the 3 MB cap\n"), 0o644)
+		v.Status, v.Class, v.Output = "failed", "toolarge", fmt.Sprintf("query of %d bytes exceeds the 3 MB cap", len(script))
+		return v
+	}
 	type ans struct {
 		solver, class, out string
 		secs               float64
